@@ -184,12 +184,44 @@ def run(ctx):
                     add("c07_snr %s %s (%d)%%Z %d%%positive %s %s" % (cQ(TOL), cQ(Fraction(S)), nn, dd, cql(refl), cql(nl)), "C13/%s/noise-snr" % fading,
                         "%s fading at %g dB: the noise power is not (power of the faded signal %g) / 10^(%g/10)" % (fading, nn / dd, S, nn / dd), dict(rep, snr_db=nn / dd))
 
+    # a K-factor written as a Python int behaves like the float; parameters re-assigned on a live channel object take effect
+    for K in (0, 1, 5, 100):
+        for ct, shape in ((3, (2, 9)), (1, (7,))):
+            seed = rng.randrange(1 << 30)
+            one = torch.ones(shape, dtype=torch.float64)
+            outs = []
+            for kv in (K, float(K)):
+                for mk in (lambda kv=kv: C.RicianFadingChannel(k_factor=kv, coherence_time=ct, avg_noise_power=0.0), lambda kv=kv: C.FlatFadingChannel("rician", coherence_time=ct, k_factor=kv, avg_noise_power=0.0)):
+                    torch.manual_seed(seed)
+                    outs.append(mk()(one))
+            ctx.count("int-k-cases")
+            ctx.nontriv(("int-k", K, ct))
+            if not all(torch.allclose(o, outs[-1], rtol=1e-6, atol=1e-7) for o in outs):
+                ctx.violation("C13/rician/int-k-factor", "rician fading with k_factor=%d (a Python int) gives coefficients %s, with k_factor=%.1f and the same seed %s" % (
+                    K, [complex(round(z.real, 4), round(z.imag, 4)) for z in outs[0].reshape(-1)[:3].tolist()], float(K), [complex(round(z.real, 4), round(z.imag, 4)) for z in outs[-1].reshape(-1)[:3].tolist()]),
+                    {"k_factor": K, "coherence_time": ct, "seed": seed})
+    for fading, mk0 in (("rayleigh", lambda **kw: C.RayleighFadingChannel(coherence_time=2, **kw)), ("rician", lambda **kw: C.FlatFadingChannel("rician", coherence_time=3, k_factor=2.0, **kw))):
+        for kind, first, second in (("snr_db", 0.0, 20.0), ("snr_db", 15.0, -5.0), ("avg_noise_power", 0.01, 2.0)):
+            x = torch.randn(3, 12, dtype=torch.float64)
+            ch = mk0(**{kind: first})
+            seed = rng.randrange(1 << 30)
+            torch.manual_seed(seed)
+            ch(x)
+            setattr(ch, kind, second)
+            torch.manual_seed(seed + 1)
+            a = ch(x)
+            torch.manual_seed(seed + 1)
+            b = mk0(**{kind: second})(x)
+            ctx.count("reassigned-parameter-cases")
+            if not torch.allclose(a, b, rtol=1e-6, atol=1e-9):
+                ctx.violation("C13/%s/parameter-reassigned" % fading, "%s fading: after one forward at %s=%g and `channel.%s = %g` the channel still behaves as before (differs from a fresh channel at %g under the same seed)" % (
+                    fading, kind, first, kind, second, second), {"fading": fading, "kind": kind, "first": first, "second": second})
     ctx.log("deterministic cases prepared", len(exprs))
     # ------------------------------------------------------------------ statistics of the gains
     NB = 1 << 20 if quick else 1 << 22
     stats = [("rayleigh", None, lambda ct: C.RayleighFadingChannel(coherence_time=ct, avg_noise_power=0.0)),
              ("rayleigh", None, lambda ct: C.FlatFadingChannel("rayleigh", coherence_time=ct, avg_noise_power=0.0))]
-    for K in ([0.0, 1.0, 3.7, 100.0] if quick else [0.0, 0.1, 0.5, 1.0, 3.7, 10.0, 40.0, 100.0]):
+    for K in ([0.0, 1.0, 3.7, 5, 100.0] if quick else [0.0, 0.1, 0.5, 1.0, 2, 3.7, 5, 10.0, 40.0, 100.0]):
         stats.append(("rician", K, lambda ct, K=K: C.RicianFadingChannel(k_factor=K, coherence_time=ct, avg_noise_power=0.0)))
         stats.append(("rician", K, lambda ct, K=K: C.FlatFadingChannel("rician", coherence_time=ct, k_factor=K, avg_noise_power=0.0)))
     for idx, (fading, K, mk) in enumerate(stats):
